@@ -31,6 +31,8 @@ Proved:
                                  stated on ids alone: run ids `≤ 2^32 − 257` are below every possible `paws'`.
 * `C16_converges_full_below_paws` the conclusion of `C16_converges_full` under its hypotheses plus `PreInv` and
                                  `ids < paws'`.
+* `C16_converges_full_false`    `¬ C16_converges_full`: D9 on the model, on a REACHABLE state (new 100/100 decoder, one stale
+                                 genuine packet of a 1/1 sender, then its run of 262 packets into `[paws', 2^32)`).
 Refuted (model level; replayed on the real decoder, see notes/C16.md):
 * `C16_mixed_window_hybrid`,    if the ring holds genuine samples of TWO sender ratios (3/1 ids 0–3, then 2/2 ids
   `C16_mixed_window_adopts_hybrid` 4 …, all in order) the tuning branch adopts 2/1 — a ratio neither sender used — and
@@ -38,6 +40,7 @@ Refuted (model level; replayed on the real decoder, see notes/C16.md):
                                  `GenuineRing` for a single ratio is therefore necessary.
 -/
 import KcpVerif.Lemmas.C16PreDec
+import KcpVerif.Lemmas.C16PreD9
 
 namespace KcpVerif.Props
 open KcpVerif.Gen KcpVerif.AutoTune KcpVerif.Fec KcpVerif.Lemmas.AutoTune KcpVerif.Lemmas.C16Pre
@@ -491,5 +494,73 @@ example : ∃ k ≤ 263, C16_pre_Good 4 2
 example : (feed Tune.init (C16_pre_mixed 3)).findPeriod true = 2 ∧
     (feed Tune.init (C16_pre_mixed 3)).findPeriod false = 1 :=
   (C16_mixed_window_hybrid 3 (by decide) (by decide)).2
+
+/-! ## `C16_converges_full` is false on a reachable state (D9 on the model) -/
+
+/-- `newFECDecoder(100, 100)`: `paws' = 4294967200` -/
+def C16_pre_d9Dec0 : Decoder :=
+  { d := 100, p := 100, n := 200, paws := pawsOf 200, newest := 0, shouldTune := false,
+    tune := Tune.init, sets := [], codec := rsNew 100 100 }
+
+/-- one genuine packet of the 1/1 sender, 1000 ids before the run -/
+def C16_pre_d9Stale : Bytes := C16_pre_mkPkt 1 1 4294966032
+
+/-- the decoder after that packet -/
+def C16_pre_d9Dec : Decoder := (C16_pre_d9Dec0.decode rsNew C16_pre_d9Stale).st
+
+/-- 262 = 258 + 2·(1+1) genuine in-order packets of the 1/1 sender, ids 4294967032 … 4294967293
+    (all below the sender's own wrap point 4294967294) -/
+def C16_pre_d9Run : List Bytes := (List.range 262).map fun i => C16_pre_mkPkt 1 1 (4294967032 + i)
+
+theorem C16_pre_aux_d9Dec0 : Decoder.new rsNew 100 100 = some C16_pre_d9Dec0 := rfl
+
+theorem C16_pre_aux_d9Stale : GenuinePkt 1 1 C16_pre_d9Stale ∧
+    seqid C16_pre_d9Stale = BitVec.ofNat 32 4294966032 := by
+  unfold GenuinePkt; decide +kernel
+
+theorem C16_pre_aux_d9Run : ∀ i (h : i < C16_pre_d9Run.length),
+    fecHeaderSize ≤ C16_pre_d9Run[i].length ∧
+    seqid C16_pre_d9Run[i] = BitVec.ofNat 32 (4294967032 + i) ∧
+    flag C16_pre_d9Run[i] = (if label 1 1 (4294967032 + i) then typeData else typeParity) := by
+  decide +kernel
+
+theorem C16_pre_aux_d9Run_length : C16_pre_d9Run.length = 262 := by
+  simp only [C16_pre_d9Run, List.length_map, List.length_range]
+
+/-- the witness state: ratio still 100/100, one stale sample in the ring -/
+theorem C16_pre_aux_d9Dec :
+    C16_pre_d9Dec.d = 100 ∧ C16_pre_d9Dec.paws = pawsOf 200 ∧
+    C16_pre_d9Dec.tune = Tune.init.sample (flag C16_pre_d9Stale == typeData) (BitVec.ofNat 32 4294966032) := by
+  have hk := decode_keep rsNew C16_pre_d9Dec0 C16_pre_d9Stale C16_pre_aux_d9Stale.1.1
+    (Or.inr (by simp only [Tune.findPeriod]; rfl))
+  refine ⟨hk.1, hk.2.2.2, ?_⟩
+  rw [C16_pre_d9Dec, C16_conv_aux_tune_step rsNew _ _ C16_pre_aux_d9Stale.1.1, C16_pre_aux_d9Stale.2]
+  rfl
+
+/-- **`C16_converges_full` does not hold** — not even on reachable states: a new 100/100 decoder
+    that has received ONE genuine packet of a 1/1 sender (id 4294966032) and then the sender's
+    uninterrupted in-order run of 258 + 2·2 = 262 packets from id 4294967032 still has ratio
+    100/100 after every one of them.  The stale sample blocks the detector for 257 packets; by then
+    the run is inside `[paws', 2^32) = [4294967200, 2^32)`, where packets are dropped before the
+    tuning code (D9).  Hence the hypothesis `ids < paws'` of `C16_converges_below_paws`. -/
+theorem C16_converges_full_false : ¬ C16_converges_full := by
+  intro hfull
+  obtain ⟨e1, e2, e3⟩ := C16_pre_aux_d9Dec
+  have hl := C16_pre_aux_d9Run_length
+  have hwf : C16_pre_d9Dec.tune.WF := by rw [e3]; exact wf_sample _ _ wf_init
+  obtain ⟨k, hk, hd, _, _⟩ := hfull rsNew C16_pre_d9Dec 1 1 C16_pre_d9Run 4294967032 hwf (by decide)
+    (by decide) (by decide) (by rw [hl]; decide) (by rw [hl]; decide) C16_pre_aux_d9Run
+  have hpaws : C16_pre_d9Dec.paws.toNat = 4294967200 := by rw [e2]; decide
+  have := (stale_prefix rsNew C16_pre_d9Dec (d := 1) (p := 1) (s := 4294967032) (J := 4294966032)
+    C16_pre_d9Run (by decide) (by decide) e3 C16_pre_aux_d9Run (by rw [hl]; decide)
+    (by rw [hpaws]; decide) k hk).1
+  rw [hd, e1] at this
+  exact absurd this (by decide)
+
+/-- the witness state is reachable under the 1/1 sender (it is in the class of
+    `C16_converges_below_paws`); only `ids < paws'` fails -/
+example : PreInv 1 1 C16_pre_d9Dec :=
+  preInv_decode rsNew _ _ (by decide) (by decide) (by decide)
+    (preInv_new rsNew 1 1 100 100 C16_pre_aux_d9Dec0) C16_pre_aux_d9Stale.1
 
 end KcpVerif.Props
